@@ -259,6 +259,9 @@ func init() {
 						for range sequtil.CanonicalSubsequences(s, 5) {
 						}
 					}})
+				periodicPanics(c, "ACGTNacgtn", []byte{'U', 'R', 0x80, 0}, map[string]func([]byte){
+					"ReverseComplement":       func(s []byte) { sequtil.ReverseComplement(nil, s) },
+					"ReverseComplementString": func(s []byte) { sequtil.ReverseComplementString(string(s)) }})
 			}},
 			{Name: "motifs", TShards: 4, Run: c12Motifs},
 			{Name: "hugek", QShards: 2, TShards: 8, Run: c12HugeK},
